@@ -227,11 +227,12 @@ PROPS = {
             'pop loop bodies of Used::new (real), one per entity kind: after scanning x everything x refers to is marked (function: its type + body operands; table: its active segments; memory: its active data segments; global: its initialiser; data: memory + offset global; element: every function / global item of either reference type, table, offset global)',
             'unit F (C16): the generated Visit impls report every entity operand of every instruction to the id hooks (so a body scan sees every reference)',
             'lemma_worklist_closure / lemma_closed_at_exit: those body contracts + empty stacks at exit give closure of the used set under the reference relation',
+            'Used::new AS A WHOLE (real text; the outer fixpoint loop is the real loop with an inductive invariant, every inner loop is replaced by the fold of its verified body): every root of the property statement -- exports, start, active data segments, declared element segments, active element segments of imported tables -- is kept, and the kept set is closed under "refers to" for every entity kind; the wabt tail (one extra memory) keeps both',
             'gc::run (whole real function, loops by summary) and each of its nine loop bodies: an entity is live afterwards iff it was live and marked used (imports: iff the entity they import is used); nothing else changes',
         ],
         'unclaimed': [
             'behavioural equivalence itself (A-sem): the contract proves "kept set closed under references and containing the roots", not execution equality',
-            'the composition of the loops of Used::new into the whole function (fold summaries assumed, A-iter), dfs_in_order reaching every instruction (unit F / C16), custom-section roots (dyn CustomSection, A-ext)',
+            'the fold summaries of the inner loops of Used::new (each is the worklist argument over its verified body: A-iter), termination of the fixpoint loop, dfs_in_order reaching every instruction (units F, T / C16), custom-section roots (dyn CustomSection, A-ext), memory back-links naming live active segments (precondition, established by unit D parse bodies)',
             'validity of the emitted module after gc: bounded stand-in only',
         ],
         'standins': [
